@@ -75,11 +75,30 @@ MISSED_FIRST = {
     "C03-h2": "not evaluated and not kept as a seeded change: written against the code before the repair 74b6e79 (NNI Undo after the root was moved), which rewrote the lines it changes; the patch no longer applies",
     "C03-h3": "not evaluated and not kept as a seeded change: written against the code before the repair 74b6e79, which rewrote the lines it changes; the patch no longer applies",
     "C17-h1": "not evaluated and not kept as a seeded change: written against the code before the repair 74b6e79 (orientation of the central branch is now derived from the actual root position), the patch no longer applies",
+    "C15-g2": "missed: every group was anchored on a tip that existed before the call; caught after a later group anchored on a tip added by an earlier group of the same call was drawn",
+    "C15-g3": "missed: SubTree was only called on inner nodes below the root; caught after the relation 'SubTree at the root equals the tree' was added, including trees whose root has a single neighbour",
+    "C11-g2": "missed: at most 130 taxa; caught (if at all within the quick budget: about ten cases per run have 1001 or 1025 taxa) after huge cases were added",
+    "C11-g3": "missed as exit 2: the reader goroutine spins without reaching a channel operation, so it never came back to the scheduler and the workers ran into the wall-clock backstop; caught after the logical loop budget was applied to every scheduled run (the faulty record made of ';' alone had been added from the author's summary before the measurement)",
+    "C09-g1": "missed: no two names differed by case only; caught after such names were drawn",
+    "C04-g2": "missed by C04 (needs two goroutines indexing at the same moment: outside what the C04 engines run)",
+    "C13-g1": "missed: the source text was always written with plain decimals; caught after lengths with an upper-case exponent were drawn",
+    "C13-g2": "missed: C13 trees had no single-child inner nodes; caught after they were drawn",
+    "C17-g1": "not detected: a binary tree whose root is a tip (root with one neighbour) is outside the reference model of the harness, which reads the root label as an inner name",
+    "C18-g1": "missed as exit 2: 1001 goroutines exceeded the 512 the scheduler followed (index out of range inside the simulator, workers hung until the backstop); the scheduler now follows 2048 and stops the worker at once beyond",
+    "C18-g2": "missed: the template gave the repeated name together with -f, which makes the command ignore the names of the command line; caught after the template was corrected",
+    "C10-g1": "caught — measured after 'indexes left stale by a renaming' had been added from the author's summary; the version before would have missed it",
+    "C10-g2": "caught — measured after the pre-used progress tracker had been added from the author's summary; the version before would have missed it",
+    "C11-g1": "caught — measured after records with id 0 had been added from the author's summary; the version before would have missed it",
+    "C09-g3": "caught — measured after 'indexes left stale by a renaming' had been added from the author's summary; the version before would have missed it",
+    "C02-g1": "caught — measured after a document with one-element confidence arrays had been added from the author's summary; the version before would have missed it",
+    "C02-g3": "caught — measured after a document with the attribute form of branch_length had been added from the author's summary; the version before would have missed it",
+    "C15-g1": "caught — measured after the copy step on trees with thousands of tips had been added from the author's summary; the version before would have missed it",
+    "C04-g1": "not kept: the pinned suite fails with it (tests/TestEdgeIndex2) on this 16-core machine, so it is not a change that passes the existing tests",
     "C18-n3": "only evaluated after the second strengthening round (interfering command between two runs of a template); the first version would have missed it",
 }
 # changes written for one property that do not break it within its quantifier but break another one (whose check is the one that must catch them)
 BREAKS = {"C02-k3": "C11", "C18-j2": "C13"}
-REJECTED = {"C04-j2", "C13-j2", "C13-j3", "C03-h2", "C03-h3", "C17-h1"}
+REJECTED = {"C04-j2", "C13-j2", "C13-j3", "C03-h2", "C03-h3", "C17-h1", "C04-g1"}
 for spec in sys.argv[3:]:
     prop, m = spec.split(":")
     src = os.path.join(outroot, prop + os.environ.get("OUTSUFFIX", "_out"), m)
